@@ -691,8 +691,16 @@ def simplify_if_control_flow(source: str) -> str:
 
         additions = set()
         replacements = {}
-        for new_variable_number, (names, indexes) in enumerate(something.items()):
-            new_variable = ast.Name(id=f"var_{new_variable_number + 1}")
+        used_names = (
+            {name.id for name in core.walk(root, ast.Name)}
+            | tracing.get_defined_names(root)
+            | {name.split(".")[0] for name in tracing.get_imported_names(root)}
+        )
+        new_variable_names = (
+            f"var_{number}" for number in itertools.count(1) if f"var_{number}" not in used_names
+        )
+        for names, indexes in something.items():
+            new_variable = ast.Name(id=next(new_variable_names))
             for src_list, body, name in zip(body_equivalent_function_srcs, bodies, names):
                 assign = ast.Assign(targets=[new_variable], value=ast.Name(id=name))
                 ast.copy_location(assign, body[0])
